@@ -6,6 +6,7 @@ import (
 	"bytes"
 	"encoding/json"
 	"fmt"
+	"io"
 	"net"
 	"os"
 	"sync"
@@ -234,6 +235,7 @@ type scriptedInst struct {
 	calls []string
 	gate  chan struct{} // when set, the next step waits for it (the requesting child goes away meanwhile)
 	slow  time.Duration // every step takes that long (draining listeners, flushing configuration ... take time)
+	began chan string   // when set, receives the name of every step as it begins
 }
 
 func (s *scriptedInst) ID() int       { return s.id }
@@ -245,6 +247,9 @@ func (s *scriptedInst) log(c string) {
 	s.mu.Unlock()
 	if g != nil {
 		<-g
+	}
+	if s.began != nil {
+		s.began <- c
 	}
 	if s.slow > 0 && c != "kill" {
 		time.Sleep(s.slow)
@@ -286,6 +291,10 @@ type c17seq struct {
 	K    int  `json:"k,omitempty"`
 	// SlowMs: every hand-over step of the old process takes that long
 	SlowMs int `json:"slow_ms,omitempty"`
+	// Pipelined: the child does not wait for an acknowledgement before it sends its next request: it sends it as soon
+	// as the old process has begun the step before (so that the frames are never merged into one read), and reads the
+	// acknowledgements at the end
+	Pipelined bool `json:"pipelined,omitempty"`
 }
 
 var instSeq int
@@ -490,6 +499,55 @@ func c17handover(cs c17seq) (sig, detail string) {
 		return "second-child-cannot-connect", ""
 	}
 	defer c2.Close()
+	if cs.Pipelined {
+		// every request is written before any acknowledgement is read: the steps must still be performed one after
+		// the other in request order, and acknowledged in that order
+		inst.mu.Lock()
+		inst.began = make(chan string, 16)
+		inst.mu.Unlock()
+		for _, ki := range cs.Seq {
+			if err := sendMessage(c2, &message{Type: reqKinds[ki].typ}); err != nil {
+				return "send-failed / pipelined requests", err.Error()
+			}
+			if reqKinds[ki].call != "" {
+				select {
+				case <-inst.began:
+				case <-time.After(10 * time.Second):
+					return "step-not-begun / pipelined requests", fmt.Sprintf("%v: step %s did not begin within 10 s", cs.Seq, reqKinds[ki].name)
+				}
+			} else {
+				time.Sleep(30 * time.Millisecond) // (no step to wait for: give the old process time to read the frame)
+			}
+		}
+		for i, ki := range cs.Seq {
+			k := reqKinds[ki]
+			c2.SetReadDeadline(time.Now().Add(30 * time.Second))
+			// (the acknowledgements may arrive merged: this child reads the stream frame by frame)
+			hdr := make([]byte, 3)
+			_, err := io.ReadFull(c2, hdr)
+			m := &message{Type: messageType(hdr[0]), Len: uint16(hdr[1])<<8 | uint16(hdr[2])}
+			if err == nil && m.Len > 0 {
+				m.Data = make([]byte, m.Len)
+				_, err = io.ReadFull(c2, m.Data)
+			}
+			if err != nil {
+				return "no-acknowledgement / " + k.name + " / pipelined requests", fmt.Sprintf("request %d of %v: %v", i, cs.Seq, err)
+			}
+			if m.Type != k.reply {
+				return "acknowledgements-out-of-order / pipelined requests", fmt.Sprintf("request %d of %v (%s): got reply type %d want %d; steps so far %v", i, cs.Seq, k.name, m.Type, k.reply, inst.snapshot())
+			}
+			if k.call != "" {
+				want = append(want, k.call)
+			}
+		}
+		for w := 0; w < 300 && len(inst.snapshot()) < len(want); w++ {
+			time.Sleep(10 * time.Millisecond)
+		}
+		if got := inst.snapshot(); fmt.Sprint(got) != fmt.Sprint(want) {
+			return "steps-out-of-order-or-missing / pipelined requests", fmt.Sprintf("%v: instance saw %v want %v", cs.Seq, got, want)
+		}
+		return "", ""
+	}
 	for i, ki := range cs.Seq {
 		k := reqKinds[ki]
 		if s, d := exchange(c2, k); s != "" {
@@ -559,6 +617,15 @@ func c17sequences(env sched.Env) *sched.Report {
 				if terminates == 1 {
 					cases = append(cases, c17seq{Seq: seq, Dies: true})
 				}
+			}
+			// a child that does not wait for the acknowledgements (steps of 150 ms, so that a step is still running when
+			// the next request is read)
+			allSteps := true
+			for _, k := range seq {
+				allSteps = allSteps && reqKinds[k].call != ""
+			}
+			if len(seq) >= 2 && len(seq) <= 3 && allSteps { // (an unknown request has no step to wait for: its frame could be merged with the next one)
+				cases = append(cases, c17seq{Seq: seq, Pipelined: true, SlowMs: 150})
 			}
 			// steps that take their time: each single step, and the full hand-over
 			if len(seq) == 1 && reqKinds[seq[0]].call != "" && reqKinds[seq[0]].call != "kill" || fmt.Sprint(seq) == "[0 1 2 3]" {
